@@ -227,6 +227,11 @@ pub fn run_prop(a: &Args, prop: &str, pnum: u64) {
             continue;
         }
         let g = if case % 4 == 2 { grammar::layered_grammar(&mut rng) } else { grammar::random_grammar(&mut rng, &cfg) };
+        if case % 16 == 7 || case % 16 == 10 {
+            let t = grammar::with_many_tokens(&g.render(), &mut rng);
+            emit(&mut out, &mut worker, &t, &mut rng, a.thorough, "many_tokens", prop);
+            continue;
+        }
         emit(&mut out, &mut worker, &g.render(), &mut rng, a.thorough, if case % 4 == 2 { "layered" } else { "random" }, prop);
     }
     out.finish(&a.out);
